@@ -191,6 +191,10 @@ func (e *c09Env) runCase(c c09Case, rnd *rand.Rand) {
 		lateHook = "listener.conn.before_register"
 	case "backend-dial-in-flight":
 		lateHook = "redis.upstream.create_client.after_dial"
+	case "backend-writer-holds-request":
+		// the backend writer is held between "written and flushed" and the hand-over to the sent queue; the backend's reply
+		// arrives meanwhile, so the backend reader waits for a request that the writer drops when it sees quit
+		lateHook = "redis.client.write.before_handoff"
 	}
 	if hook != "" {
 		s.HookArm(hook, sutc.HookAction{Mode: "park", Times: 1})
@@ -217,7 +221,7 @@ func (e *c09Env) runCase(c c09Case, rnd *rand.Rand) {
 			s.StopProc(name, 5*time.Second)
 			return
 		}
-	default: // "serving", "serving-deep-pipeline", "serving-after-host-replace": wait for the listener, open connections, put requests in flight
+	default: // "serving", "serving-deep-pipeline", "serving-backend-queue-full", "serving-after-host-replace": wait for the listener, open connections, put requests in flight
 		up := false
 		for i := 0; i < 400 && !up; i++ {
 			if cc, err := net.DialTimeout("tcp", addr, time.Second); err == nil {
@@ -309,7 +313,7 @@ func (e *c09Env) runCase(c c09Case, rnd *rand.Rand) {
 				lateHook = ""
 			}
 		}
-		if lateHook == "listener.conn.before_register" {
+		if lateHook == "listener.conn.before_register" || lateHook == "redis.client.write.before_handoff" {
 			s.HookArm(lateHook, sutc.HookAction{Mode: "park", Times: 1})
 		}
 		for i := 0; i < c.Conns; i++ {
@@ -326,8 +330,20 @@ func (e *c09Env) runCase(c c09Case, rnd *rand.Rand) {
 				if c.Placement == "serving-deep-pipeline" {
 					depth = 40 + rnd.Intn(40)
 				}
+				if c.Placement == "backend-writer-holds-request" {
+					depth = 1 // flushed at once: the reply is on its way while the writer is held
+				}
 				for k := 0; k < depth; k++ {
 					buf = append(buf, resp.CmdS("SET", fmt.Sprintf("k%d.%d", i, k), strings.Repeat("v", 1+rnd.Intn(2000)))...)
+				}
+				if c.Placement == "serving-backend-queue-full" {
+					// one multi-key request with more children than a backend client's queues hold (1024 pending + 1 in
+					// the writer's hand + 1024 sent): the session reader itself is parked in the send to the backend client
+					args := []string{"MGET"}
+					for k := 0; k < 2600+rnd.Intn(800); k++ {
+						args = append(args, fmt.Sprintf("{q%d}.%d", i, k))
+					}
+					buf = resp.CmdS(args...)
 				}
 				cc.Write(buf)
 			} else {
@@ -335,6 +351,15 @@ func (e *c09Env) runCase(c c09Case, rnd *rand.Rand) {
 			}
 		}
 		time.Sleep(time.Duration(10+rnd.Intn(40)) * time.Millisecond)
+		if lateHook == "redis.client.write.before_handoff" {
+			if s.WaitParked(lateHook, 1, 3*time.Second) {
+				time.Sleep(50 * time.Millisecond) // the reply reaches the backend reader
+			} else {
+				s.HookRelease(lateHook)
+				r.Inconclusive("hook-not-reached:" + lateHook)
+				lateHook = ""
+			}
+		}
 		if lateHook == "listener.conn.before_register" && !s.WaitParked(lateHook, 1, 3*time.Second) {
 			s.HookRelease(lateHook)
 			r.Inconclusive("hook-not-reached:" + lateHook)
@@ -564,7 +589,11 @@ func c09(r *ev.Run) {
 			if proto == "redis" {
 				cases = append(cases, c09Case{proto, "backend-dial-in-flight", "responsive", 0, "stop"})
 				cases = append(cases, c09Case{proto, "serving-deep-pipeline", "silent", 3, "stop"}, c09Case{proto, "serving-deep-pipeline", "responsive", 3, "stop"},
-					c09Case{proto, "serving-deep-pipeline", "not-reading", 2, "drain-then-stop"}, c09Case{proto, "serving-after-host-replace", "responsive", 2, "stop"})
+					c09Case{proto, "serving-deep-pipeline", "not-reading", 2, "drain-then-stop"}, c09Case{proto, "serving-after-host-replace", "responsive", 2, "stop"},
+					c09Case{proto, "backend-writer-holds-request", "responsive", 1, "stop"}, c09Case{proto, "backend-writer-holds-request", "responsive", 1, "stop"},
+					c09Case{proto, "backend-writer-holds-request", "responsive", 1, "stop"}, c09Case{proto, "backend-writer-holds-request", "responsive", 1, "stop"},
+					c09Case{proto, "backend-writer-holds-request", "responsive", 1, "stop"}, c09Case{proto, "backend-writer-holds-request", "responsive", 1, "stop"},
+					c09Case{proto, "serving-backend-queue-full", "silent", 2, "stop"}, c09Case{proto, "serving-backend-queue-full", "not-reading", 1, "drain-then-stop"})
 			}
 			backs := []string{"silent", "not-reading", "closed"}
 			if proto == "redis" {
